@@ -217,7 +217,8 @@ def {}():
     # constraint RD(x) > U1 & U2 reads  x --> U1 <  RD(x) == U2 # impl
     # constraint WR(x) < U1 & U2 writes x --> U2 == WR(x) <  U1 # impl
     # constraint WR(x) > U1 & U2 writes x --> U1 <  WR(x) == U2
-    # Doesn't work for nested data struct and slice:
+    # RD(x) / WR(x) also stand for the blocks that access a field or a slice
+    # of x, or a signal x is a part of.
 
     read_upblks = defaultdict(set)
     write_upblks = defaultdict(set)
@@ -246,10 +247,26 @@ def {}():
       # enumerate variable objects
       for obj, constrained_blks in constraints.items():
 
+        # blocks that read/write obj itself, a part of obj (field, slice),
+        # or a signal that contains obj
+        related_blks = set()
+        for x, blks in equal_blks.items():
+          y = x
+          while y.is_signal():
+            if y is obj:
+              related_blks |= blks
+              break
+            y = y.get_parent_object()
+        y = obj
+        while y.is_signal():
+          if y in equal_blks:
+            related_blks |= equal_blks[ y ]
+          y = y.get_parent_object()
+
         # enumerate upblks that has a constraint with x
         for (sign, co_blk) in constrained_blks:
 
-          for eq_blk in equal_blks[ obj ]: # blocks that are U == RD(x)
+          for eq_blk in related_blks: # blocks that are U == RD(x)
             if co_blk != eq_blk:
               if sign == 1: # RD/WR(x) < U is 1, RD/WR(x) > U is -1
                 # eq_blk == RD/WR(x) < co_blk
